@@ -338,10 +338,12 @@ class MustCheck:
         ok1 = self.check_paths(body, key + "/arity", [], edges, "assert index.len() == grid arity", len(edges))
         # element-wise delegation
         n = 0
-        for c in self.prog.closures_of(body):
+        for c in [body] + self.prog.closures_of(body):      # a mapping closure, or the body of an explicit `for` loop
             for bb, t in c.calls():
                 cb = self.prog.local_callee_body(t)
                 if cb is not None and cb.key == bins_body.key and cb.key in self.verified:
+                    if c is body and not any(bb in body.reachable_from(s2) for s2 in body.succ(bb)):
+                        continue          # in the routine itself the call must sit in a loop (one call per element)
                     n += 1
         # and the un-mapped elements must not be dropped: the closure is consumed by map(zip(projections, index))
         ok2 = self.ctx.ob(self.rule, key + "/elementwise", n >= 1, body.where(),
